@@ -3,7 +3,7 @@
 # IDL equivalent:
 #   service VerifService {
 #     string echo(1: string s), i64 add(1: i32 a, 2: i64 b), Pair swap(1: Pair p),
-#     string lock(1: string key, 2: i32 timeout), string tail(1: string s),
+#     string lock(1: string key, 2: i32 timeout), string tail(1: string s), oneway void notify(1: string s),
 #     bool flag(1: bool b, 2: double d), void ping(),
 #     string fail(1: string why) throws (1: VerifError err),
 #     void vfail(1: string why) throws (1: VerifError err),
@@ -30,6 +30,9 @@ class Iface(object):
         pass
 
     def tail(self, s):
+        pass
+
+    def notify(self, s):
         pass
 
     def swap(self, p):
@@ -62,6 +65,7 @@ class Processor(Iface, TProcessor):
         self._processMap["add"] = Processor.process_add
         self._processMap["lock"] = Processor.process_lock
         self._processMap["tail"] = Processor.process_tail
+        self._processMap["notify"] = Processor.process_notify
         self._processMap["swap"] = Processor.process_swap
         self._processMap["flag"] = Processor.process_flag
         self._processMap["ping"] = Processor.process_ping
@@ -136,6 +140,17 @@ class Processor(Iface, TProcessor):
         result.write(oprot)
         oprot.writeMessageEnd()
         oprot.trans.flush()
+
+    def process_notify(self, seqid, iprot, oprot):
+        args = notify_args()
+        args.read(iprot)
+        iprot.readMessageEnd()
+        try:
+            self._handler.notify(args.s)
+        except TTransport.TTransportException:
+            raise
+        except Exception:
+            logging.exception('Exception in oneway handler')
 
     def process_add(self, seqid, iprot, oprot):
         args = add_args()
@@ -398,6 +413,20 @@ class tail_args(TBase):
 
 all_structs.append(tail_args)
 tail_args.thrift_spec = (
+    None,  # 0
+    (1, TType.STRING, 's', 'UTF8', None, ),  # 1
+)
+
+
+class notify_args(TBase):
+    __slots__ = ('s',)
+
+    def __init__(self, s=None):
+        self.s = s
+
+
+all_structs.append(notify_args)
+notify_args.thrift_spec = (
     None,  # 0
     (1, TType.STRING, 's', 'UTF8', None, ),  # 1
 )
